@@ -1,8 +1,11 @@
 package props
 
 import (
+	"fmt"
 	"testing"
 
+	vestingtypes "github.com/chain4energy/c4e-chain/x/cfevesting/types"
+	sdk "github.com/cosmos/cosmos-sdk/types"
 	"pgregory.net/rapid"
 )
 
@@ -62,6 +65,9 @@ func TestC06(t *testing.T) {
 		if m.denomProposals > 0 && m.withdrawAfterLockEnd > 0 {
 			cl = append(cl, "denom_proposal_in_history")
 		}
+		if m.sentToRecorded > 0 {
+			cl = append(cl, "send_to_address_recorded_in_genesis")
+		}
 		st.Case(nt, map[string]interface{}{"history": m.log}, cl...)
 	})
 }
@@ -85,5 +91,58 @@ func TestC08(t *testing.T) {
 			cl = append(cl, "restart_with_type_stated_in_mixed_units")
 		}
 		st.Case(nt, map[string]interface{}{"history": m.log}, cl...)
+	})
+}
+
+// TestC05Restart: the same solvency identity on a running chain (signed transactions through
+// DeliverTx, real begin/end blockers, Commit) whose node process restarts between blocks: a new
+// application instance over the same database must still see every pool that the module account
+// backs.  (The state machine above runs on one application instance and cannot see state that lives
+// only in that instance's memory.)
+func TestC05Restart(t *testing.T) {
+	st := StatsFor("C05")
+	rapid.Check(t, func(t *rapid.T) {
+		g := GenABCIGenesis(t)
+		d := newABCIDriver(t, g)
+		nb := rapid.IntRange(4, 14).Draw(t, "nBlocks")
+		restarts := 0
+		check := func(when string) {
+			ctx := d.c.QueryCtx()
+			k := d.c.App.CfevestingKeeper
+			denom := k.GetParams(ctx).Denom
+			if err := sdk.ValidateDenom(denom); err != nil {
+				t.Fatalf("%s: the vesting module's denomination parameter reads %q\nhistory:\n%s", when, denom, jsonStr(d.log))
+			}
+			mb := d.c.App.BankKeeper.GetBalance(ctx, ModuleAddr(vestingtypes.ModuleName), denom).Amount
+			ps := sdk.ZeroInt()
+			n := 0
+			for _, avp := range k.GetAllAccountVestingPools(ctx) {
+				for _, p := range avp.VestingPools {
+					ps = ps.Add(p.InitiallyLocked).Sub(p.Sent).Sub(p.Withdrawn)
+					n++
+				}
+			}
+			if !mb.Equal(ps) {
+				t.Fatalf("%s: vesting module account holds %s%s, the %d pools account for %s\nhistory:\n%s", when, mb, denom, n, ps, jsonStr(d.log))
+			}
+		}
+		for i := 0; i < nb; i++ {
+			d.genBlock(fmt.Sprintf("b%d", i))
+			check(fmt.Sprintf("after block %d", i+1))
+			if i < nb-1 && rapid.IntRange(0, 3).Draw(t, fmt.Sprintf("restart%d", i)) == 0 {
+				d.c.Restart()
+				restarts++
+				d.note("node restarted after block %d", i+1)
+				check(fmt.Sprintf("after the restart that followed block %d", i+1))
+			}
+		}
+		var cl []string
+		if restarts > 0 {
+			cl = append(cl, "node_restarted")
+		}
+		if d.accepted["cfevesting"] > 0 {
+			cl = append(cl, "vesting_tx_accepted")
+		}
+		st.Case(restarts > 0 && d.accepted["cfevesting"] > 0, map[string]interface{}{"genesis": g, "history": d.log}, cl...)
 	})
 }
